@@ -58,10 +58,28 @@ type tcpSrvScenario struct {
 	order  string // lockstep | pairs | rotate
 	nblk   int
 	sameTk bool
+	recsm  bool // every peer repeats its CSM in the middle of its transfer, this time without the Block-Wise-Transfer option
 }
 
 func (s tcpSrvScenario) String() string {
+	if s.recsm {
+		return fmt.Sprintf("%s %d %s %d %v recsm", s.dir, s.nconn, s.order, s.nblk, s.sameTk)
+	}
 	return fmt.Sprintf("%s %d %s %d %v", s.dir, s.nconn, s.order, s.nblk, s.sameTk)
+}
+
+// csmPlain is a CSM that only announces a maximum message size (RFC 8323 §5.3: a later CSM updates what it carries,
+// options it does not carry keep their value; Block-Wise-Transfer, once announced, stays).
+func csmPlain() []byte {
+	m := pool.NewMessage(context.Background())
+	m.SetCode(codes.CSM)
+	m.SetToken(message.Token{2})
+	m.SetOptionUint32(message.TCPMaxMessageSize, 1152)
+	b, err := m.MarshalWithEncoder(tcpcoder.DefaultCoder)
+	if err != nil {
+		panic(err)
+	}
+	return append([]byte(nil), b...)
 }
 
 type tcpSrvPeer struct {
@@ -163,6 +181,10 @@ func runTcpSrvScenario(sc tcpSrvScenario, seed int) string {
 	step := func(p *tcpSrvPeer) {
 		if p.done {
 			return
+		}
+		if sc.recsm && p.next == 1 {
+			_ = p.peer.Write(csmPlain())
+			synctest.Wait()
 		}
 		m := pool.NewMessage(context.Background())
 		m.SetToken(p.tok)
@@ -304,7 +326,26 @@ func TestC04TcpServer(t *testing.T) {
 			for _, order := range []string{"lockstep", "pairs", "rotate"} {
 				for _, nblk := range []int{2, 3, 4} {
 					for _, same := range []bool{true, false} {
-						sc := tcpSrvScenario{dir, nconn, order, nblk, same}
+						sc := tcpSrvScenario{dir, nconn, order, nblk, same, false}
+						if nconn == 2 && order == "lockstep" && nblk == 3 && !same {
+							// once more with a CSM repeated mid-transfer (appended after the plain scenario below)
+							defer func(sc tcpSrvScenario) {
+								sc.recsm = true
+								if only != "" && sc.String() != only {
+									return
+								}
+								res := "err"
+								synctest.Test(t, func(*testing.T) {
+									defer func() {
+										if r := recover(); r != nil {
+											res = "violates-panic-" + strings.ReplaceAll(fmt.Sprint(r), " ", "_")
+										}
+									}()
+									res = runTcpSrvScenario(sc, seed*100+int(fnv([]byte(sc.String()))%50))
+								})
+								fmt.Fprintf(w, "tcpsrv %s result=%s\n", sc.String(), res)
+							}(sc)
+						}
 						if only != "" && sc.String() != only {
 							continue
 						}
@@ -471,6 +512,217 @@ func TestC04UdpDial(t *testing.T) {
 	for i, sc := range scs {
 		if res[i] != "" {
 			fmt.Fprintf(w, "udpdial %s result=%s\n", sc.String(), res[i])
+		}
+	}
+}
+
+// ---------------------------------------------------------------- udp.Server.DiscoveryRequest with a query, stateless responders
+
+type discoverScenario struct {
+	nblk       int
+	responders int
+	accept     bool
+}
+
+func (s discoverScenario) String() string { return fmt.Sprintf("%d %d %v", s.nblk, s.responders, s.accept) }
+
+// runDiscoverScenario: the request carries Uri-Query (and Accept); every responder is a raw socket that evaluates EVERY
+// block request on its own (RFC 7959 stateless server): with the query it serves the queried representation, without it
+// the plain one.  No ETag.  The receiver must get, from every responder, exactly the queried body, once.
+func runDiscoverScenario(sc discoverScenario, seed int) string {
+	const u = 16
+	l, err := coapNet.NewListenUDP("udp4", "127.0.0.1:0")
+	if err != nil {
+		return "skipped-no-loopback"
+	}
+	defer l.Close()
+	s := udp.NewServer(options.WithErrors(func(error) {}), options.WithBlockwise(true, blockwise.SZX16, 2*time.Second),
+		options.WithHandlerFunc(func(*responsewriter.ResponseWriter[*udpclient.Conn], *pool.Message) {}))
+	served := make(chan struct{})
+	go func() { _ = s.Serve(l); close(served) }()
+	defer func() {
+		s.Stop()
+		select {
+		case <-served:
+		case <-time.After(2 * time.Second):
+		}
+	}()
+	time.Sleep(20 * time.Millisecond)
+	bodyQ := genBody(seed, 0, (sc.nblk-1)*u+7)     // what `?rep=q` (and Accept 60) selects
+	bodyPlain := genBody(seed+77, 0, (sc.nblk-1)*u+7) // what the same path serves without them
+	var rwg sync.WaitGroup
+	quit := make(chan struct{})
+	var addrs []string
+	for i := 0; i < sc.responders; i++ {
+		pc, err := net.ListenUDP("udp4", &net.UDPAddr{IP: net.IPv4(127, 0, 0, 1)})
+		if err != nil {
+			return "skipped-no-loopback"
+		}
+		addrs = append(addrs, pc.LocalAddr().String())
+		rwg.Add(1)
+		go func(i int, pc *net.UDPConn) {
+			defer rwg.Done()
+			defer pc.Close()
+			buf := make([]byte, 2048)
+			mid := int32(9000 + 100*i)
+			for {
+				_ = pc.SetReadDeadline(time.Now().Add(30 * time.Millisecond))
+				n, from, err := pc.ReadFromUDP(buf)
+				select {
+				case <-quit:
+					return
+				default:
+				}
+				if err != nil {
+					continue
+				}
+				q := pool.NewMessage(context.Background())
+				if _, err := q.UnmarshalWithDecoder(udpcoder.DefaultCoder, buf[:n]); err != nil || q.Code() != codes.GET {
+					continue
+				}
+				if p, _ := q.Path(); p != "/c04/res" {
+					continue
+				}
+				body := bodyPlain
+				queries, _ := q.Queries()
+				hasQ := len(queries) == 1 && queries[0] == "rep=q"
+				acc, accErr := q.GetOptionUint32(message.Accept)
+				if hasQ && (!sc.accept || (accErr == nil && acc == 60)) {
+					body = bodyQ
+				}
+				num := 0
+				if blk, err := q.GetOptionUint32(message.Block2); err == nil {
+					num = int(blk >> 4)
+				}
+				if num*u > len(body) {
+					continue
+				}
+				end := (num + 1) * u
+				more := true
+				if end >= len(body) {
+					end, more = len(body), false
+				}
+				r := pool.NewMessage(context.Background())
+				r.SetCode(codes.Content)
+				r.SetToken(q.Token())
+				r.SetContentFormat(message.TextPlain)
+				v, _ := blockwise.EncodeBlockOption(blockwise.SZX16, int64(num), more)
+				r.SetOptionUint32(message.Block2, v)
+				r.SetOptionUint32(message.Size2, uint32(len(body)))
+				r.SetBody(bytes.NewReader(body[num*u : end]))
+				if q.Type() == message.Confirmable {
+					r.SetType(message.Acknowledgement)
+					r.SetMessageID(q.MessageID())
+				} else {
+					mid++
+					r.SetType(message.NonConfirmable)
+					r.SetMessageID(mid)
+				}
+				out, err := r.MarshalWithEncoder(udpcoder.DefaultCoder)
+				if err == nil {
+					_, _ = pc.WriteToUDP(out, from)
+				}
+			}
+		}(i, pc)
+	}
+	defer func() { close(quit); rwg.Wait() }()
+
+	type gotBody struct {
+		remote string
+		body   []byte
+	}
+	var mu sync.Mutex
+	var got []gotBody
+	var dwg sync.WaitGroup
+	for i, a := range addrs {
+		dwg.Add(1)
+		go func(i int, a string) {
+			defer dwg.Done()
+			ctx, cancel := context.WithTimeout(context.Background(), 500*time.Millisecond)
+			defer cancel()
+			req := pool.NewMessage(ctx)
+			req.SetCode(codes.GET)
+			req.SetToken(message.Token{0xd1, 0x5c, byte(i), byte(seed)})
+			req.SetType(message.NonConfirmable)
+			req.SetMessageID(int32(4000 + i))
+			_ = req.SetPath("/c04/res")
+			req.AddQuery("rep=q")
+			if sc.accept {
+				req.SetOptionUint32(message.Accept, 60)
+			}
+			_ = s.DiscoveryRequest(req, a, func(cc *udpclient.Conn, resp *pool.Message) {
+				b := readBody(resp)
+				mu.Lock()
+				got = append(got, gotBody{cc.RemoteAddr().String(), append([]byte(nil), b...)})
+				mu.Unlock()
+			})
+		}(i, a)
+	}
+	dwg.Wait()
+	mu.Lock()
+	defer mu.Unlock()
+	per := map[string]int{}
+	for _, g := range got {
+		per[g.remote]++
+		if !bytes.Equal(g.body, bodyQ) {
+			mixed := len(g.body) >= u && bytes.Equal(g.body[:u], bodyQ[:u])
+			return fmt.Sprintf("violates-receiver-got-%d-bytes-not-the-queried-body-of-%d-firstblock-queried-%v", len(g.body), len(bodyQ), mixed)
+		}
+	}
+	for _, a := range addrs {
+		if per[a] > 1 {
+			return fmt.Sprintf("violates-body-of-%s-delivered-%d-times", a, per[a])
+		}
+	}
+	if len(got) == 0 {
+		return "err" // nothing arrived in time: a failed exchange, not a wrong one
+	}
+	return "ok"
+}
+
+func TestC04Discover(t *testing.T) {
+	outp := os.Getenv("VERIF_OUT")
+	if outp == "" {
+		t.Skip("VERIF_OUT not set")
+	}
+	seed, _ := strconv.Atoi(os.Getenv("VERIF_SEED"))
+	f, err := os.Create(outp)
+	if err != nil {
+		t.Fatal(err)
+	}
+	defer f.Close()
+	w := bufio.NewWriter(f)
+	defer w.Flush()
+	only := os.Getenv("VERIF_SCENARIO")
+	var scs []discoverScenario
+	for _, nblk := range []int{1, 2, 3, 4} {
+		for _, resp := range []int{1, 2} {
+			for _, acc := range []bool{false, true} {
+				scs = append(scs, discoverScenario{nblk, resp, acc})
+			}
+		}
+	}
+	res := make([]string, len(scs))
+	var wg sync.WaitGroup
+	for i, sc := range scs {
+		if only != "" && sc.String() != only {
+			continue
+		}
+		wg.Add(1)
+		go func() {
+			defer wg.Done()
+			defer func() {
+				if r := recover(); r != nil {
+					res[i] = "violates-panic-" + strings.ReplaceAll(fmt.Sprint(r), " ", "_")
+				}
+			}()
+			res[i] = runDiscoverScenario(sc, seed*100+i)
+		}()
+	}
+	wg.Wait()
+	for i, sc := range scs {
+		if res[i] != "" {
+			fmt.Fprintf(w, "discover %s result=%s\n", sc.String(), res[i])
 		}
 	}
 }
